@@ -159,12 +159,40 @@ func lastWriteSorted(ops []Op) []kvp {
 
 // ---------- Coq printers ----------
 
-// coqB prints a byte string as (pk lastn [chunks]%uint63): 7 bytes per primitive-integer literal,
-// little-endian (decoded by Corr.C03.pk).
+// coqB prints a byte string as a Coq term: runs of >= 24 equal bytes as (rp n b), the rest as
+// packed chunks (coqPk); segments joined with ++.
 func coqB(b []byte) string {
 	if len(b) == 0 {
 		return "[]"
 	}
+	var segs []string
+	start := 0 // start of the pending literal segment
+	for i := 0; i < len(b); {
+		j := i
+		for j < len(b) && b[j] == b[i] {
+			j++
+		}
+		if j-i >= 24 {
+			if i > start {
+				segs = append(segs, coqPk(b[start:i]))
+			}
+			segs = append(segs, fmt.Sprintf("(rp %d %d)", j-i, b[i]))
+			start = j
+		}
+		i = j
+	}
+	if start < len(b) {
+		segs = append(segs, coqPk(b[start:]))
+	}
+	if len(segs) == 1 {
+		return segs[0]
+	}
+	return "(" + strings.Join(segs, " ++ ") + ")"
+}
+
+// coqPk prints a non-empty byte string as (pk lastn [chunks]%uint63): 7 bytes per
+// primitive-integer literal, little-endian (decoded by Corr.C03.pk).
+func coqPk(b []byte) string {
 	var sb strings.Builder
 	last := len(b) % 7
 	if last == 0 {
